@@ -83,3 +83,21 @@ package hh
 //@   reads_unlocked queue.head the processor goroutine is the only writer of head after Open (Advance, PurgeOlderThan run on it)
 //@ func (*queue).Truncate
 //@   reads_unlocked queue.head the processor goroutine is the only writer of head after Open (Advance, PurgeOlderThan run on it)
+
+// ---- C04: what a segment has accepted reaches its file before the segment stops being the tail ----
+// Buffered appends (ten or more writers in flight) stay in memory until a flush. A segment that reports
+// ErrSegmentFull is about to be replaced as the tail, and nothing flushes a former tail later: it must have
+// flushed its buffer first. An unbuffered append is on disk when it returns nil.
+//@ func (*segment).append
+//@   props C04
+//@   nosafety
+//@   ghost flushed_before_full bool = false
+//@   ghost flushed_unbuffered bool = false
+//@   at after segment.flush#1: ghost flushed_before_full = callresult == nil
+//@   at after segment.flush#2: ghost flushed_unbuffered = callresult == nil
+//@   at after segment.flush#1: assume callresult != ErrSegmentFull
+//@   at after segment.flush#2: assume callresult != ErrSegmentFull
+//@   at after binary.Write#1: assume callresult != ErrSegmentFull
+//@   dead ret3
+//@   ensures full_segment_is_flushed_first: result == ErrSegmentFull ==> flushed_before_full
+//@   ensures unbuffered_append_is_on_disk: result == nil && !buffered ==> flushed_unbuffered
